@@ -271,6 +271,7 @@ def execute(spec):
         "nontrivial": bool(sched.nontrivial() and kept_features >= 2),
         "distinct_key": digest([spec["world"], spec["ops"], spec.get("subset"), sched.signature()]),
         "sched_key": sched.signature(),
+        "sched_decisions": sched.decisions if len(sched.decisions) <= 20000 else None,
         "steps": len(spec["ops"]) + 2,
         "skipped": 0,
         "sim_time": log.seq + len(sched.decisions),
